@@ -44,6 +44,10 @@ DEVIATIONS = {
     'ack_per_key': (['C11'],
                     'a SETTINGS ACK applies one pending value of EVERY key instead of the changes of the one frame it answers '
                     '(ACK of the initial frame applies a later update_settings)'),
+    'setting_id_truncated': (['C02', 'C11'],
+                             'update_settings with a setting identifier above 255 emits a SETTINGS frame carrying only the low 8 '
+                             'bits of the identifier (the hyperframe serialiser masks it): update_settings({0x104: n}) tells the '
+                             'peer INITIAL_WINDOW_SIZE = n (found by trace validation of random traces, spec/Trace.tla)'),
     'update_settings_partial': (['C11', 'C12'],
                                 'update_settings with a later invalid value raises but keeps the earlier keys of the same call '
                                 'enqueued as pending'),
